@@ -17,22 +17,24 @@ import (
 
 // Scenario is one closed driver plus its oracle.
 type Scenario struct {
-	Prop   string
-	Name   string
-	Quick  int // preemption bound in the quick tier (-1: not run)
-	Thor   int // preemption bound in the thorough tier
-	Desc   string
+	Prop  string
+	Name  string
+	Quick int // preemption bound in the quick tier (-1: not run)
+	Thor  int // preemption bound in the thorough tier
+	Desc  string
 	// MustSee: an observation containing this string must occur in at least one
 	// execution (non-vacuity / "a schedule with both occupied is found").
-	MustSee string
+	MustSee                 string
 	QuickShards, ThorShards int
 	// Isolate: the scenario touches process-global state that a violating
 	// execution can corrupt for good; the worker stops at its first violation.
-	Isolate                 bool
-	Horizon                 int // max scheduling points per execution (0 = default)
-	FreeQuick, FreeThor     int // free-choice bound per tier (0 = default 3; use -1 for "0")
+	Isolate             bool
+	Horizon             int // max scheduling points per execution (0 = default)
+	FreeQuick, FreeThor int // free-choice bound per tier (0 = default 3; use -1 for "0")
 	// New returns the body and the oracle for one execution.
-	Make func() (body func(), check func(e *vsched.Exec) (string, *vsched.Violation))
+	// RacesInCheck: the scenario's own oracle evaluates Exec.Races
+	RacesInCheck bool
+	Make         func() (body func(), check func(e *vsched.Exec) (string, *vsched.Violation))
 }
 
 var scenarios []*Scenario
@@ -64,6 +66,26 @@ type Result struct {
 	Longest     []int               `json:"longest_prefix,omitempty"`
 }
 
+// benignRaces: unordered access pairs that exist on the unchanged tree and that
+// cannot affect any listed property (see DESIGN.md 12.3). Keys carry the field
+// and both functions, so another unordered access to the same field from a
+// different function, or to a different field, is still reported.
+var benignRaces = map[string]string{
+	"ThreadPool.workerIdleMap: read@engine/pool.(*ThreadPool).SetWorkerCount / write@engine/pool.(*ThreadPoolWorker).run":              "SetWorkerCount polls len(workerIdleMap) without the lock until a worker is idle: a single word read in a sleep loop, no map access",
+	"varsScope.parent: read@scope.(*varsScope).Parent / write@scope.SetParentOfScope":                                                  "the parent is set once by the program thread before the scope is handed to the debugger (through the interrogation state's unlocked vs field); the console reads it while that thread is suspended",
+	"varsScope.parent: read@scope.(*varsScope).Parent / write@scope.(*varsScope).NewChild":                                             "as above (set once under the scope lock before the child is published)",
+	"ecalDebugger.lastVisit: write@interpreter.(*ecalDebugger).VisitState / write@interpreter.(*ecalDebugger).VisitState":              "timestamp word written under the read lock by every visiting thread; only read by the settle-wait heuristic of StopThreads(d > 0)",
+	"ecalDebugger.lastVisit: read@interpreter.(*ecalDebugger).StopThreads / write@interpreter.(*ecalDebugger).VisitState":              "as above",
+	"ecalDebugger.mutexLog: read@interpreter.(*ecalDebugger).LockState / write@interpreter.(*ecalDebugger).SetLockingState":            "set once (check-then-set of the same provider-owned pointer by every thread's first visit), then only read",
+	"ecalDebugger.mutexeOwners: read@interpreter.(*ecalDebugger).LockState / write@interpreter.(*ecalDebugger).SetLockingState":        "as above",
+	"ecalDebugger.mutexeOwners: read@interpreter.(*ecalDebugger).SetLockingState / write@interpreter.(*ecalDebugger).SetLockingState":  "as above",
+	"ecalDebugger.mutexeOwners: write@interpreter.(*ecalDebugger).SetLockingState / write@interpreter.(*ecalDebugger).SetLockingState": "as above",
+	"ecalDebugger.mutexLog: write@interpreter.(*ecalDebugger).SetLockingState / write@interpreter.(*ecalDebugger).SetLockingState":     "as above",
+	"ecalDebugger.threadpool: read@interpreter.(*ecalDebugger).LockState / write@interpreter.(*ecalDebugger).SetThreadPool":            "as above (SetThreadPool)",
+	"ecalDebugger.threadpool: read@interpreter.(*ecalDebugger).SetThreadPool / write@interpreter.(*ecalDebugger).SetThreadPool":        "as above (SetThreadPool)",
+	"ecalDebugger.threadpool: write@interpreter.(*ecalDebugger).SetThreadPool / write@interpreter.(*ecalDebugger).SetThreadPool":       "as above (SetThreadPool)",
+}
+
 var tierFlag = flag.String("tier", "quick", "tier (scenarios that enumerate inside one execution use it for their depth)")
 
 func tierThorough() bool { return *tierFlag == "thorough" }
@@ -85,8 +107,8 @@ func main() {
 
 	if *list {
 		type item struct {
-			Prop, Name, Desc string
-			Quick, Thor      int
+			Prop, Name, Desc        string
+			Quick, Thor             int
 			QuickShards, ThorShards int
 			FreeQuick, FreeThor     int
 		}
@@ -130,6 +152,20 @@ func main() {
 	_ = body
 	wrapCheck := func(e *vsched.Exec) (string, *vsched.Violation) {
 		obs, v := check(e)
+		var races, details []string
+		for i, r := range e.Races {
+			if _, ok := benignRaces[r]; !ok {
+				races = append(races, r)
+				details = append(details, e.RaceDetail[i])
+			}
+		}
+		if v == nil && len(races) > 0 && !sc.RacesInCheck {
+			// the happens-before race check over package-level variables,
+			// escaping closure variables and fields of lock-carrying structs
+			// applies to every scenario
+			v = &vsched.Violation{Key: "data race: " + races[0], Msg: "accesses not ordered by any synchronisation: " + strings.Join(details, " ; ")}
+			obs = "race"
+		}
 		if v != nil {
 			v.Key = sc.Name + ":" + v.Key
 		}
